@@ -14,7 +14,7 @@ VARIANTS = [
     M('C16', 'header-rows-defaulted-with-or', E(CW, "        self.header_rows = 0 if header == False else nvl(header_rows, 1)", "        self.header_rows = 0 if header == False else (header_rows or 1)"), rule='C16-DKEYS', key='header_rows or 1'),
     M('C16', 'integer-read-as-float', E(PI, "    'int': 'Int64',", "    'int': 'float',"), rule='C16-TYPES', key='type:integer'),
     M('C16', 'csvw-type-without-dtype', E(CW, "    'double': 'number',", "    'double': 'double',"), rule='C16-TYPES', key='closed'),
-    M('C16', 'dates-get-a-dtype', E(PI, "        if f.name not in date_fields\n        and MTYPE_TO_PANDAS_DTYPE.get(f.mtype) is not None", "        if MTYPE_TO_PANDAS_DTYPE.get(f.mtype) is not None"), rule='C16-TYPES', key='nodate'),
+    M('C16', 'dates-get-a-dtype', E(PI, "        if f.name not in date_fields\n        and MTYPE_TO_PANDAS_DTYPE.get(f.mtype) is not None", "        if MTYPE_TO_PANDAS_DTYPE.get(f.mtype) is not None"), rule='C16-TYPES', key='read_csv-arguments'),
     M('C16', 'refactor-chain-as-loop', E(CW, "    outfmt = (\n        fmt.replace('dd', 'd')\n           .replace('d', '%d')", "    outfmt = (\n        fmt.replace('dd', 'd').replace('d', '%d')"), kind='refactor'),
 ]
 
